@@ -19,7 +19,7 @@ for p in $PROPS; do
     cat "$tmp/$p.$W."* | sort -n > "$tmp/$p.$W.all"; rm -f "$tmp/$p.$W."[0-9]*
   done
   n=$(wc -l < "$tmp/$p.16.all")
-  case " C14 C18 " in *" $p "*)
+  case " C14 C18 C19 " in *" $p "*)
     # FIPS-build pass of the same property: same proof with the FIPS binary
     binf="$ROOT/build/harness-fips/isalsim_fips"; needf="$(cat "$ROOT/build/harness-fips/.libdir")/isa_need.tsv"
     for W in 16 3; do
